@@ -367,6 +367,31 @@ func c05(p *core.Program, r *core.Report) {
 				})
 				return kwText, found
 			}
+			// the keyword writer by role: when write itself only drives (an explicit stack of cursors) and a worker
+			// it hands the geometry to writes the keyword, that worker is the anchor
+			if pt := geomPtrType(p, "Point"); pt != nil && gIdx >= 0 {
+				if kw, _ := keywordOf(wfn, gIdx, pt, lvalOf["XY"]); !strings.HasPrefix(strings.ToUpper(kw), "POINT") {
+					for _, c := range eng.Calls(wfn) {
+						g := c.Common().StaticCallee()
+						if g == nil || g.Pkg != wfn.Pkg || len(g.Blocks) == 0 {
+							continue
+						}
+						gi := -1
+						for i, prm := range g.Params {
+							if n, ok := prm.Type().(*types.Named); ok && n.Obj().Name() == "T" && n.Obj().Pkg() != nil && n.Obj().Pkg().Path() == mod {
+								gi = i
+							}
+						}
+						if gi < 0 {
+							continue
+						}
+						if kw2, _ := keywordOf(g, gi, pt, lvalOf["XY"]); strings.HasPrefix(strings.ToUpper(kw2), "POINT") {
+							wfn, gIdx = g, gi
+							break
+						}
+					}
+				}
+			}
 			keyword := func(dyn types.Type, layout int64) (string, bool) { return keywordOf(wfn, gIdx, dyn, layout) }
 			// every other function of the package that is handed a geometry and writes its keyword (a worker that
 			// write delegates to, which is also what collection members are written with) must write the same
